@@ -62,6 +62,46 @@ POOL = ['AL', 'CR', 'NI', 'FE', 'C', 'CO', 'CU', 'MG', 'SI', 'TI', 'ZR', 'MN', '
 SITES = ['bulk', 'dislocations', 'grain boundaries', 'grain edges', 'grain corners']
 
 
+# ---------------------------------------------------------------- guards: one exception must not abort the run
+_STAGE = {'at': None}
+
+
+def at(name):
+    """announce the implementation call that is about to be made (ends up in the key of a `raises:` violation)"""
+    _STAGE['at'] = name
+
+
+def guard(res, part, case, fn, *a, **k):
+    """run one case.  An exception raised INSIDE the code under test becomes a violation `raises:<part>:<call>:<ExcType>`
+    carrying the case (replayable: part + seed) and the run goes on; an exception of the harness itself is collected in
+    res.extra['harness_errors'] and re-raised by vlib.finish_guard(res) only if the run found no violation.
+    Returns (ok, value)."""
+    import traceback
+    _STAGE['at'] = None
+    try:
+        return True, fn(*a, **k)
+    except Exception as e:
+        tb = traceback.format_exc()
+        if vlib.in_repo_traceback(tb):
+            site = [l.strip() for l in tb.splitlines() if l.strip().startswith('File "%s' % vlib.REPO)]
+            what = part + (':' + str(_STAGE['at']) if _STAGE['at'] else '')
+            c = dict(case) if isinstance(case, dict) else dict(case=case)
+            c.update(raised_at=site[-1] if site else None, message=str(e)[:200])
+            res.violate('raises:%s:%s' % (what, type(e).__name__), 'the implementation raised %s: %s' % (type(e).__name__, str(e)[:200]), vlib.jsonable(c))
+        else:
+            res.extra.setdefault('harness_errors', []).append({'what': part, 'error': tb[-1500:]})
+            res._harness_exc = e
+        return False, None
+
+
+def run_model(res, lines, use_model):
+    """answers of the Lean driver, or None (oracle only) when it is not available / fails"""
+    if not use_model:
+        return None
+    ok, out = guard(res, 'driver', dict(part='driver', lines=len(lines)), vlib.run_driver, PROP, lines)
+    return out if ok else None
+
+
 def enc_names(ns):
     ns = list(ns)
     return ' '.join([str(len(ns))] + [str(n) for n in ns])
@@ -117,36 +157,38 @@ def part_argsort(ctx, res, N, use_model):
         else:
             lines.append('perm.argsort.flt ' + enc_list(keys))
             lines.append('perm.take %s %s' % (enc_ilist(uns), enc_list(a_s)))
-    model = vlib.run_driver(PROP, lines) if use_model else None
+    model = run_model(res, lines, use_model)
     for k, (s, kind, keys, a, srt, uns, a_s, back) in enumerate(cases):
-        n = len(keys)
-        desc = dict(part='argsort', seed=s, kind=kind, keys=keys)
-        res.case(('argsort', kind, n, s), n >= 3 and srt != uns)
-        res.count('A:keys-' + kind); res.count('A:sort!=unsort' if srt != uns else 'A:sort==unsort')
-        # direct oracle on NumPy itself: the inverse-permutation identities the code relies on
-        if not np.array_equal(back, a) or [keys[i] for i in srt] != sorted(keys) or [srt[u] for u in uns] != list(range(n)):
-            res.violate('argsort-inverse', 'np.argsort(np.argsort(k)) does not undo np.argsort(k)', desc, back, a)
-        if model is None:
-            continue
-        t = Toks(model[2 * k])
-        if not t.ok:
-            res.disagree('argsort model error', desc, 'ok', t.err); continue
-        ms, mu = t.nats(), t.nats()
-        if ms != srt:
-            res.disagree('argsort', desc, srt, ms)
-        if mu != uns:
-            res.disagree('unsortIndices', desc, uns, mu)
-        t = Toks(model[2 * k + 1])
-        if kind == 'str':
-            m_s, m_back, m_back2 = t.flts(), t.flts(), t.flts()
-            if m_s != a_s or m_back != a or m_back2 != a:
-                res.disagree('take round trip', desc, [a_s, a], [m_s, m_back, m_back2])
-        elif kind == 'int':
-            if t.flts() != a_s:
-                res.disagree('take(sort)', desc, a_s, model[2 * k + 1])
-        else:
-            if t.flts() != back:
-                res.disagree('take(unsort)', desc, back, model[2 * k + 1])
+        def _body():
+            n = len(keys)
+            desc = dict(part='argsort', seed=s, kind=kind, keys=keys)
+            res.case(('argsort', kind, n, s), n >= 3 and srt != uns)
+            res.count('A:keys-' + kind); res.count('A:sort!=unsort' if srt != uns else 'A:sort==unsort')
+            # direct oracle on NumPy itself: the inverse-permutation identities the code relies on
+            if not np.array_equal(back, a) or [keys[i] for i in srt] != sorted(keys) or [srt[u] for u in uns] != list(range(n)):
+                res.violate('argsort-inverse', 'np.argsort(np.argsort(k)) does not undo np.argsort(k)', desc, back, a)
+            if model is None:
+                return
+            t = Toks(model[2 * k])
+            if not t.ok:
+                res.disagree('argsort model error', desc, 'ok', t.err); return
+            ms, mu = t.nats(), t.nats()
+            if ms != srt:
+                res.disagree('argsort', desc, srt, ms)
+            if mu != uns:
+                res.disagree('unsortIndices', desc, uns, mu)
+            t = Toks(model[2 * k + 1])
+            if kind == 'str':
+                m_s, m_back, m_back2 = t.flts(), t.flts(), t.flts()
+                if m_s != a_s or m_back != a or m_back2 != a:
+                    res.disagree('take round trip', desc, [a_s, a], [m_s, m_back, m_back2])
+            elif kind == 'int':
+                if t.flts() != a_s:
+                    res.disagree('take(sort)', desc, a_s, model[2 * k + 1])
+            else:
+                if t.flts() != back:
+                    res.disagree('take(unsort)', desc, back, model[2 * k + 1])
+        guard(res, 'argsort:analysis', dict(part='argsort', seed=s), _body)
 
 
 # =========================================================================== part B: real wrappers, stub backend
@@ -280,20 +322,20 @@ def run_wrappers(elements_user, x_user, T, salt, log):
     with st.patched() as th:
         x = np.array(x_user, dtype=float)
         d = st.data_for(x, T)
-        out['D'] = np.array(th.getInterdiffusivity(x, T))
-        out['tracer'] = np.array(th.getTracerDiffusivity(x, T))
+        at('getInterdiffusivity'); out['D'] = np.array(th.getInterdiffusivity(x, T))
+        at('getTracerDiffusivity'); out['tracer'] = np.array(th.getTracerDiffusivity(x, T))
         for meth in ('approximate', 'curvature', 'sampling', 'tangent'):
             th.setDrivingForceMethod(meth)
             th._compset_cache_df = {'PREC': [st.csP(d)]} if meth == 'tangent' else {}
             th._matrix_cs = None
-            dg, xp = th.getDrivingForce(x, T, precPhase='PREC')
+            at('getDrivingForce-' + meth); dg, xp = th.getDrivingForce(x, T, precPhase='PREC')
             out['dg_' + meth] = float(dg); out['xp_' + meth] = np.atleast_1d(np.array(xp, dtype=float))
-        ca, cb = th._interfacialComposition(x, T, 100.0, 'PREC')
+        at('_interfacialComposition'); ca, cb = th._interfacialComposition(x, T, 100.0, 'PREC')
         out['ic_a'] = np.array(ca); out['ic_b'] = np.array(cb)
-        co = th._curvatureFactorFromEq(d['mu2'].copy(), st.csM(d), st.csP(d), 'PREC')
+        at('_curvatureFactorFromEq'); co = th._curvatureFactorFromEq(d['mu2'].copy(), st.csM(d), st.csP(d), 'PREC')
         out['dc'] = np.array(co.dc); out['mc'] = float(co.mc); out['gba'] = np.array(co.gba); out['beta'] = float(co.beta)
         out['ceq_a'] = np.array(co.c_eq_alpha); out['ceq_b'] = np.array(co.c_eq_beta)
-        md = DP.computeMobility(th, x, T)
+        at('computeMobility'); md = DP.computeMobility(th, x, T)
         out['mob'] = np.array(md.mobility[0]); out['mob_mu'] = np.array(md.chemical_potentials[0])
     # alphabetical answers of the backend for the model side (computed independently of the wrapper code)
     xM = np.delete(d['XM'], refIndex); xP = np.delete(d['XP'], refIndex)
@@ -343,10 +385,17 @@ def part_wrappers(ctx, res, N, use_model):
         sol = els[1:]
         els2 = [els[0]] + [sol[i] for i in p]; x2 = [x[i] for i in p]
         log1, log2 = {}, {}
-        with warnings.catch_warnings():
-            warnings.simplefilter('ignore')
-            o1, al = run_wrappers(els, x, c['T'], c['salt'], log1)
-            o2, _ = run_wrappers(els2, x2, c['T'], c['salt'], log2)
+
+        def _run():
+            with warnings.catch_warnings():
+                warnings.simplefilter('ignore')
+                o1, al = run_wrappers(els, x, c['T'], c['salt'], log1)
+                o2, _ = run_wrappers(els2, x2, c['T'], c['salt'], log2)
+            return o1, o2, al
+        ok, val = guard(res, 'wrappers', c, _run)
+        if not ok:
+            continue
+        o1, o2, al = val
         cases.append((c, o1, o2, al, log1, log2))
         lines.append('perm.vec %s %s %s' % (enc_names(sol), enc_list(x), enc_list(al['xp_nonref'])))
         lines.append('perm.mat %s %s %s' % (enc_names(sol), enc_list(x), enc_mat(al['D'])))
@@ -355,85 +404,87 @@ def part_wrappers(ctx, res, N, use_model):
         lines.append('perm.ref %s %s %s %s' % (els[0], enc_names(sol), enc_list(x), enc_list(al['tracer'])))
         lines.append('perm.vec %s %s %s' % (enc_names(sol), enc_list(x), enc_list(al['dc'])))
         lines.append('perm.ref %s %s %s %s' % (els[0], enc_names(sol), enc_list(x), enc_list(al['mobM'])))
-    model = vlib.run_driver(PROP, lines) if use_model else None
+    model = run_model(res, lines, use_model)
     PER = 7
     for k, (c, o1, o2, al, log1, log2) in enumerate(cases):
-        els, x, p = c['elements'], c['x'], c['perm']
-        n = len(els)
-        lp = [0] + [i + 1 for i in p]
-        involution = all(p[p[i]] == i for i in range(len(p)))
-        res.case(('wrappers', tuple(els), tuple(p)), not involution)
-        res.count('B:elements=%d' % n); res.count('B:perm-involution' if involution else 'B:perm-not-involution')
-        if k < 1:
-            res.sample(dict(part='wrappers', elements=els, listed_again=[els[0]] + [els[1:][i] for i in p], x=x,
-                            D_first=o1['D'].tolist(), D_again=o2['D'].tolist()))
-        desc = dict(c)
-        # ---- direct oracle: the second listing gives the permuted results, nothing else changes
-        if log1['seen'] != log2['seen']:
-            res.violate('elem-order:backend-input', 'the backend was handed different alphabetical data for the two listings', desc, log2['seen'][:1], log1['seen'][:1])
-        for q in VEC_SOL:
-            if rel(o2[q], o1[q][p]) > 1e-12:
-                res.violate('elem-order:' + q, '%s of the re-listed elements is not the re-listed %s' % (q, q), desc, o2[q].tolist(), o1[q][p].tolist())
-        for q in VEC_FULL:
-            if rel(o2[q], o1[q][lp]) > 1e-12:
-                res.violate('elem-order:' + q, '%s of the re-listed elements is not the re-listed %s' % (q, q), desc, o2[q].tolist(), o1[q][lp].tolist())
-        for q in ('D', 'gba'):
-            if rel(o2[q], o1[q][p][:, p]) > 1e-12:
-                res.violate('elem-order:' + ('interdiffusivity' if q == 'D' else q), '%s of the re-listed elements is not P·%s·Pᵀ' % (q, q), desc, o2[q].tolist(), o1[q][p][:, p].tolist())
-        if rel(o2['mob'], o1['mob'][:, lp]) > 1e-12:
-            res.violate('elem-order:mobility', 'computeMobility of the re-listed elements is not the re-listed mobility', desc, o2['mob'].tolist(), o1['mob'][:, lp].tolist())
-        for q in SCAL:
-            if not close(o2[q], o1[q], 1e-12):
-                res.violate('elem-order:' + q, 'scalar result %s changed with the listing order' % q, desc, o2[q], o1[q])
-        # ---- independent reference: the wrapper returns the backend's answer for the element at each listed position
-        sol = els[1:]
-        pos = [al['nonref_sorted'].index(e) for e in sol]
-        posf = [al['names_sorted'].index(e) for e in els]
-        refchecks = [('xp_approximate', al['xp_nonref'][pos]), ('xp_curvature', al['xp_nonref'][pos]), ('xp_sampling', al['xp_nonref'][pos]),
-                     ('xp_tangent', al['xp_nonref'][pos]), ('dc', al['dc'][pos]), ('ceq_a', al['ceq_a'][pos]), ('ceq_b', al['ceq_b'][pos]),
-                     ('tracer', al['tracer'][posf]), ('ic_a', al['ic_a'][posf]), ('ic_b', al['ic_b'][posf]), ('mob_mu', al['mob_mu'][posf]),
-                     ('D', al['D'][pos][:, pos]), ('gba', al['gba'][pos][:, pos])]
-        for q, want in refchecks:
-            if rel(o1[q], want) > 1e-9:
-                res.violate('elem-order:' + ('interdiffusivity' if q == 'D' else q), '%s is not the backend answer by element name' % q, desc, np.asarray(o1[q]).tolist(), np.asarray(want).tolist())
-        if rel(o1['mob'], np.array([al['mobM'][posf], al['mobP'][posf]])) > 1e-9:
-            res.violate('elem-order:mobility', 'computeMobility is not the backend answer by element name', desc, o1['mob'].tolist(), [al['mobM'][posf].tolist()])
-        for q in SCAL:
-            if not close(o1[q], al[q], 1e-9):
-                res.violate('elem-order:' + q, 'scalar %s differs from the alphabetical evaluation (x handed over in the wrong order?)' % q, desc, o1[q], al[q])
-        # ---- model correspondence
-        if model is None:
-            continue
-        def rd(i):
-            return Toks(model[PER * k + i])
-        t = rd(0)
-        if not t.ok:
-            res.disagree('perm.vec model error', desc, 'ok', t.err); continue
-        msort = t.nats(); msx = t.flts(); mres = t.flts(); mnames = t.rest()
-        if msx != list(al['xs']) or mnames != al['nonref_sorted']:
-            res.disagree('data handed to the backend (sorted names / x)', desc, [al['nonref_sorted'], list(al['xs'])], [mnames, msx])
-        for q in ('xp_curvature',):
-            if mres != o1[q].tolist():
-                res.disagree('wrapVec vs _getDrivingForceCurvature composition', desc, o1[q].tolist(), mres)
-        for i, q in ((1, 'D'), (2, 'gba')):
-            t = rd(i); rows = [t.flts() for _ in range(t.nat())]
-            if rel(rows, o1[q]) > (0 if q == 'D' else 1e-12):
-                res.disagree('wrapMat vs ' + q, desc, o1[q].tolist(), rows)
-        t = rd(3); msx = t.flts(); mtail = t.flts(); mfull = t.flts()
-        for q in ('xp_approximate', 'xp_sampling', 'xp_tangent'):
-            if mtail != o1[q].tolist():
-                res.disagree('wrapVecRef vs ' + q, desc, o1[q].tolist(), mtail)
-        if mfull != o1['ic_b'].tolist():
-            res.disagree('wrapVecFull vs interfacial composition', desc, o1['ic_b'].tolist(), mfull)
-        t = rd(4); t.flts(); t.flts(); mfull = t.flts()
-        if mfull != o1['tracer'].tolist():
-            res.disagree('wrapVecFull vs tracer diffusivity', desc, o1['tracer'].tolist(), mfull)
-        t = rd(5); t.nats(); t.flts(); mres = t.flts()
-        if rel(mres, o1['dc']) > 1e-12:
-            res.disagree('wrapVec vs curvature dc', desc, o1['dc'].tolist(), mres)
-        t = rd(6); t.flts(); t.flts(); mfull = t.flts()
-        if rel(mfull, o1['mob'][0]) > 1e-12:
-            res.disagree('wrapVecFull vs computeMobility', desc, o1['mob'][0].tolist(), mfull)
+        def _body():
+            els, x, p = c['elements'], c['x'], c['perm']
+            n = len(els)
+            lp = [0] + [i + 1 for i in p]
+            involution = all(p[p[i]] == i for i in range(len(p)))
+            res.case(('wrappers', tuple(els), tuple(p)), not involution)
+            res.count('B:elements=%d' % n); res.count('B:perm-involution' if involution else 'B:perm-not-involution')
+            if k < 1:
+                res.sample(dict(part='wrappers', elements=els, listed_again=[els[0]] + [els[1:][i] for i in p], x=x,
+                                D_first=o1['D'].tolist(), D_again=o2['D'].tolist()))
+            desc = dict(c)
+            # ---- direct oracle: the second listing gives the permuted results, nothing else changes
+            if log1['seen'] != log2['seen']:
+                res.violate('elem-order:backend-input', 'the backend was handed different alphabetical data for the two listings', desc, log2['seen'][:1], log1['seen'][:1])
+            for q in VEC_SOL:
+                if rel(o2[q], o1[q][p]) > 1e-12:
+                    res.violate('elem-order:' + q, '%s of the re-listed elements is not the re-listed %s' % (q, q), desc, o2[q].tolist(), o1[q][p].tolist())
+            for q in VEC_FULL:
+                if rel(o2[q], o1[q][lp]) > 1e-12:
+                    res.violate('elem-order:' + q, '%s of the re-listed elements is not the re-listed %s' % (q, q), desc, o2[q].tolist(), o1[q][lp].tolist())
+            for q in ('D', 'gba'):
+                if rel(o2[q], o1[q][p][:, p]) > 1e-12:
+                    res.violate('elem-order:' + ('interdiffusivity' if q == 'D' else q), '%s of the re-listed elements is not P·%s·Pᵀ' % (q, q), desc, o2[q].tolist(), o1[q][p][:, p].tolist())
+            if rel(o2['mob'], o1['mob'][:, lp]) > 1e-12:
+                res.violate('elem-order:mobility', 'computeMobility of the re-listed elements is not the re-listed mobility', desc, o2['mob'].tolist(), o1['mob'][:, lp].tolist())
+            for q in SCAL:
+                if not close(o2[q], o1[q], 1e-12):
+                    res.violate('elem-order:' + q, 'scalar result %s changed with the listing order' % q, desc, o2[q], o1[q])
+            # ---- independent reference: the wrapper returns the backend's answer for the element at each listed position
+            sol = els[1:]
+            pos = [al['nonref_sorted'].index(e) for e in sol]
+            posf = [al['names_sorted'].index(e) for e in els]
+            refchecks = [('xp_approximate', al['xp_nonref'][pos]), ('xp_curvature', al['xp_nonref'][pos]), ('xp_sampling', al['xp_nonref'][pos]),
+                         ('xp_tangent', al['xp_nonref'][pos]), ('dc', al['dc'][pos]), ('ceq_a', al['ceq_a'][pos]), ('ceq_b', al['ceq_b'][pos]),
+                         ('tracer', al['tracer'][posf]), ('ic_a', al['ic_a'][posf]), ('ic_b', al['ic_b'][posf]), ('mob_mu', al['mob_mu'][posf]),
+                         ('D', al['D'][pos][:, pos]), ('gba', al['gba'][pos][:, pos])]
+            for q, want in refchecks:
+                if rel(o1[q], want) > 1e-9:
+                    res.violate('elem-order:' + ('interdiffusivity' if q == 'D' else q), '%s is not the backend answer by element name' % q, desc, np.asarray(o1[q]).tolist(), np.asarray(want).tolist())
+            if rel(o1['mob'], np.array([al['mobM'][posf], al['mobP'][posf]])) > 1e-9:
+                res.violate('elem-order:mobility', 'computeMobility is not the backend answer by element name', desc, o1['mob'].tolist(), [al['mobM'][posf].tolist()])
+            for q in SCAL:
+                if not close(o1[q], al[q], 1e-9):
+                    res.violate('elem-order:' + q, 'scalar %s differs from the alphabetical evaluation (x handed over in the wrong order?)' % q, desc, o1[q], al[q])
+            # ---- model correspondence
+            if model is None:
+                return
+            def rd(i):
+                return Toks(model[PER * k + i])
+            t = rd(0)
+            if not t.ok:
+                res.disagree('perm.vec model error', desc, 'ok', t.err); return
+            msort = t.nats(); msx = t.flts(); mres = t.flts(); mnames = t.rest()
+            if msx != list(al['xs']) or mnames != al['nonref_sorted']:
+                res.disagree('data handed to the backend (sorted names / x)', desc, [al['nonref_sorted'], list(al['xs'])], [mnames, msx])
+            for q in ('xp_curvature',):
+                if mres != o1[q].tolist():
+                    res.disagree('wrapVec vs _getDrivingForceCurvature composition', desc, o1[q].tolist(), mres)
+            for i, q in ((1, 'D'), (2, 'gba')):
+                t = rd(i); rows = [t.flts() for _ in range(t.nat())]
+                if rel(rows, o1[q]) > (0 if q == 'D' else 1e-12):
+                    res.disagree('wrapMat vs ' + q, desc, o1[q].tolist(), rows)
+            t = rd(3); msx = t.flts(); mtail = t.flts(); mfull = t.flts()
+            for q in ('xp_approximate', 'xp_sampling', 'xp_tangent'):
+                if mtail != o1[q].tolist():
+                    res.disagree('wrapVecRef vs ' + q, desc, o1[q].tolist(), mtail)
+            if mfull != o1['ic_b'].tolist():
+                res.disagree('wrapVecFull vs interfacial composition', desc, o1['ic_b'].tolist(), mfull)
+            t = rd(4); t.flts(); t.flts(); mfull = t.flts()
+            if mfull != o1['tracer'].tolist():
+                res.disagree('wrapVecFull vs tracer diffusivity', desc, o1['tracer'].tolist(), mfull)
+            t = rd(5); t.nats(); t.flts(); mres = t.flts()
+            if rel(mres, o1['dc']) > 1e-12:
+                res.disagree('wrapVec vs curvature dc', desc, o1['dc'].tolist(), mres)
+            t = rd(6); t.flts(); t.flts(); mfull = t.flts()
+            if rel(mfull, o1['mob'][0]) > 1e-12:
+                res.disagree('wrapVecFull vs computeMobility', desc, o1['mob'][0].tolist(), mfull)
+        guard(res, 'wrappers:analysis', c, _body)
 
 
 # =========================================================================== part B2: diffusion-side wrappers, stub backend
@@ -492,25 +543,25 @@ def run_diffusion_stub(c, elements_user, log):
     out = {}
     by = lambda arr, names: {e: np.array(arr[i], dtype=float) for i, e in enumerate(names)}
     with st.patched() as th:
-        sp = mk(SinglePhaseModel, ['MAT'])
+        at('SinglePhaseModel.setup'); sp = mk(SinglePhaseModel, ['MAT'])
         sp.setup()
         out['x0'] = by(sp.x, sol)
-        fl, dt = sp.getFluxes()
+        at('SinglePhaseModel.getFluxes'); fl, dt = sp.getFluxes()
         out['sp_flux'] = by(fl, sol); out['sp_dt'] = float(dt)
-        t, x = sp.getCurrentX(); dxdt = sp.getdXdt(t, x)
+        at('SinglePhaseModel.getdXdt'); t, x = sp.getCurrentX(); dxdt = sp.getdXdt(t, x)
         out['sp_dxdt'] = by(dxdt[0], sol); out['sp_getDt'] = float(sp.getDt(dxdt))
         hp = HomogenizationParameters(getattr(HomogenizationParameters, c['hfunc']), eps=c['eps'])
         hp.setLabyrinthFactor(c['lab'])
         hm = mk(HomogenizationModel, ['MAT', 'PREC'], homogenizationParameters=hp)
-        hm.setup()
-        fl, dt = hm.getFluxes()
+        at('HomogenizationModel.setup'); hm.setup()
+        at('HomogenizationModel.getFluxes'); fl, dt = hm.getFluxes()
         out['hm_flux'] = by(fl, sol); out['hm_dt'] = float(dt)
-        t, x = hm.getCurrentX(); dxdt = hm.getdXdt(t, x)
+        at('HomogenizationModel.getdXdt'); t, x = hm.getCurrentX(); dxdt = hm.getdXdt(t, x)
         out['hm_dxdt'] = by(dxdt[0], sol); out['hm_getDt'] = float(hm.getDt(dxdt))
         xs = hm.x.T.copy()
-        amob, mu = computeHomogenizationFunction(th, xs, T, hp)
+        at('computeHomogenizationFunction'); amob, mu = computeHomogenizationFunction(th, xs, T, hp)
         out['h_mob'] = by(np.atleast_2d(amob).T, elements_user); out['h_mu'] = by(np.atleast_2d(mu).T, elements_user)
-        md = computeMobility(th, xs, T)
+        at('computeMobility'); md = computeMobility(th, xs, T)
         out['m_mu'] = by(np.array(md.chemical_potentials).T, elements_user)
         out['m_mob'] = by(np.transpose(np.array(md.mobility), (2, 0, 1)), elements_user)     # per element: (node, phase)
         # sibling consistency: the homogenized mobility is the homogenization function of computeMobility's output
@@ -518,7 +569,7 @@ def run_diffusion_stub(c, elements_user, log):
                         for i in range(len(xs))])
         out['h_mob_from_m'] = by(ref.T, elements_user)
         unsort = np.argsort(np.argsort(th.elements[:-1]))
-        one = _computeSingleMobility(th, xs[0], T, unsort)
+        at('_computeSingleMobility'); one = _computeSingleMobility(th, xs[0], T, unsort)
         out['single_mu'] = by(one.chemical_potentials, elements_user)
         # what the backend answers at node 0, by element name (independent of all wrapper code)
         d = st.data_for(xs[0], T)
@@ -538,54 +589,62 @@ def part_diffusion_stub(ctx, res, N, use_model):
         c = gen_diffusion_case(random.Random(s)); c['seed'] = s
         els, p = c['elements'], c['perm']
         els2 = [els[0]] + [els[1:][i] for i in p]
-        with warnings.catch_warnings():
-            warnings.simplefilter('ignore')
-            o1 = run_diffusion_stub(c, els, {}); o2 = run_diffusion_stub(c, els2, {})
+
+        def _run():
+            with warnings.catch_warnings():
+                warnings.simplefilter('ignore')
+                return run_diffusion_stub(c, els, {}), run_diffusion_stub(c, els2, {})
+        ok, val = guard(res, 'diffusion-stub', {kk: (vv if kk not in ('profile', 'bcs') else str(vv)) for kk, vv in c.items()}, _run)
+        if not ok:
+            continue
+        o1, o2 = val
         cases.append((c, els2, o1, o2))
         lines.append('perm.ref %s %s %s %s' % (els[0], enc_names(els[1:]), enc_list(c['x']), enc_list(o1['mu2_sorted0'])))
-    model = vlib.run_driver(PROP, lines) if use_model else None
+    model = run_model(res, lines, use_model)
     for k, (c, els2, o1, o2) in enumerate(cases):
-        els = c['elements']
-        srt = np.argsort(els).tolist(); uns = np.argsort(srt).tolist()
-        res.case(('diffusion-stub', tuple(els), tuple(c['perm'])), srt != uns)
-        res.count('B2:elements=%d' % len(els)); res.count('B2:sort!=unsort(full list)' if srt != uns else 'B2:sort==unsort(full list)')
-        desc = {kk: (vv if kk not in ('profile', 'bcs') else str(vv)) for kk, vv in c.items()}
-        # ---- direct oracle: by element NAME nothing depends on the listing
-        scal = ['sp_dt', 'sp_getDt', 'hm_dt', 'hm_getDt']
-        for q in scal:
-            if not close(o1[q], o2[q], 1e-9):
-                res.violate('elem-order:diffusion:' + q, 'time step %s of the diffusion model depends on the listing order of the elements' % q, desc, o2[q], o1[q])
-        for q in ('x0', 'sp_flux', 'sp_dxdt', 'hm_flux', 'hm_dxdt', 'h_mob', 'h_mu', 'm_mu', 'm_mob', 'single_mu'):
-            sc = max(float(np.max(np.abs(v_))) for v_ in o1[q].values()) if q in ('sp_flux', 'sp_dxdt', 'hm_flux', 'hm_dxdt') else 0.0
-            for e in o1[q]:
-                a, b = o1[q][e], o2[q][e]
-                if a.shape != b.shape or np.max(np.abs(a - b) - 1e-9 * np.maximum(np.maximum(np.abs(a), np.abs(b)), sc), initial=-1) > 0:
-                    res.violate('elem-order:diffusion:' + q, '%s of element %s (by name) depends on the listing order of the elements' % (q, e), dict(desc, listing=els2),
-                                np.asarray(b).tolist(), np.asarray(a).tolist()); break
-        # ---- independent references on the first listing
-        for e in els:
-            if not close(o1['h_mu'][e][0], o1['backend_mu0'][e], 1e-12) or not close(o1['m_mu'][e][0], o1['backend_mu0'][e], 1e-12) \
-                    or not close(float(o1['single_mu'][e]), o1['backend_mu0'][e], 1e-12):
-                res.violate('elem-order:diffusion:chemical-potential', 'chemical potential returned for %s is not the backend value of %s' % (e, e), desc,
-                            [float(o1['h_mu'][e][0]), float(o1['m_mu'][e][0]), float(o1['single_mu'][e])], o1['backend_mu0'][e]); break
-        usum = sum(v_ for e, v_ in o1['backend_XM0'].items() if e not in interstitials)
-        for e in els:
-            want = o1['backend_mob0'][e] * o1['backend_XM0'][e] / usum
-            if not close(o1['m_mob'][e][0, 0], want, 1e-9):
-                res.violate('elem-order:diffusion:mobility', 'computeMobility value for %s is not mobility x u-fraction of %s' % (e, e), desc, float(o1['m_mob'][e][0, 0]), want); break
-        for e in els:
-            if rel(o1['h_mob'][e], o1['h_mob_from_m'][e]) > 1e-9 or rel(o1['h_mu'][e], o1['m_mu'][e]) > 1e-12:
-                res.violate('elem-order:diffusion:homogenization-vs-computeMobility', 'computeHomogenizationFunction and computeMobility disagree for element %s' % e, desc,
-                            o1['h_mob'][e].tolist(), o1['h_mob_from_m'][e].tolist()); break
-        # ---- model: wrapVecFull with the backend answering the alphabetical chemical potentials
-        if model is not None:
-            t = Toks(model[k])
-            if not t.ok:
-                res.disagree('perm.ref model error', desc, 'ok', t.err); continue
-            t.flts(); t.flts(); mfull = t.flts()
-            got = [float(o1['h_mu'][e][0]) for e in els]
-            if mfull != got:
-                res.disagree('wrapVecFull vs computeHomogenizationFunction chemical potentials', desc, got, mfull)
+        def _body():
+            els = c['elements']
+            srt = np.argsort(els).tolist(); uns = np.argsort(srt).tolist()
+            res.case(('diffusion-stub', tuple(els), tuple(c['perm'])), srt != uns)
+            res.count('B2:elements=%d' % len(els)); res.count('B2:sort!=unsort(full list)' if srt != uns else 'B2:sort==unsort(full list)')
+            desc = {kk: (vv if kk not in ('profile', 'bcs') else str(vv)) for kk, vv in c.items()}
+            # ---- direct oracle: by element NAME nothing depends on the listing
+            scal = ['sp_dt', 'sp_getDt', 'hm_dt', 'hm_getDt']
+            for q in scal:
+                if not close(o1[q], o2[q], 1e-9):
+                    res.violate('elem-order:diffusion:' + q, 'time step %s of the diffusion model depends on the listing order of the elements' % q, desc, o2[q], o1[q])
+            for q in ('x0', 'sp_flux', 'sp_dxdt', 'hm_flux', 'hm_dxdt', 'h_mob', 'h_mu', 'm_mu', 'm_mob', 'single_mu'):
+                sc = max(float(np.max(np.abs(v_))) for v_ in o1[q].values()) if q in ('sp_flux', 'sp_dxdt', 'hm_flux', 'hm_dxdt') else 0.0
+                for e in o1[q]:
+                    a, b = o1[q][e], o2[q][e]
+                    if a.shape != b.shape or np.max(np.abs(a - b) - 1e-9 * np.maximum(np.maximum(np.abs(a), np.abs(b)), sc), initial=-1) > 0:
+                        res.violate('elem-order:diffusion:' + q, '%s of element %s (by name) depends on the listing order of the elements' % (q, e), dict(desc, listing=els2),
+                                    np.asarray(b).tolist(), np.asarray(a).tolist()); break
+            # ---- independent references on the first listing
+            for e in els:
+                if not close(o1['h_mu'][e][0], o1['backend_mu0'][e], 1e-12) or not close(o1['m_mu'][e][0], o1['backend_mu0'][e], 1e-12) \
+                        or not close(float(o1['single_mu'][e]), o1['backend_mu0'][e], 1e-12):
+                    res.violate('elem-order:diffusion:chemical-potential', 'chemical potential returned for %s is not the backend value of %s' % (e, e), desc,
+                                [float(o1['h_mu'][e][0]), float(o1['m_mu'][e][0]), float(o1['single_mu'][e])], o1['backend_mu0'][e]); break
+            usum = sum(v_ for e, v_ in o1['backend_XM0'].items() if e not in interstitials)
+            for e in els:
+                want = o1['backend_mob0'][e] * o1['backend_XM0'][e] / usum
+                if not close(o1['m_mob'][e][0, 0], want, 1e-9):
+                    res.violate('elem-order:diffusion:mobility', 'computeMobility value for %s is not mobility x u-fraction of %s' % (e, e), desc, float(o1['m_mob'][e][0, 0]), want); break
+            for e in els:
+                if rel(o1['h_mob'][e], o1['h_mob_from_m'][e]) > 1e-9 or rel(o1['h_mu'][e], o1['m_mu'][e]) > 1e-12:
+                    res.violate('elem-order:diffusion:homogenization-vs-computeMobility', 'computeHomogenizationFunction and computeMobility disagree for element %s' % e, desc,
+                                o1['h_mob'][e].tolist(), o1['h_mob_from_m'][e].tolist()); break
+            # ---- model: wrapVecFull with the backend answering the alphabetical chemical potentials
+            if model is not None:
+                t = Toks(model[k])
+                if not t.ok:
+                    res.disagree('perm.ref model error', desc, 'ok', t.err); return
+                t.flts(); t.flts(); mfull = t.flts()
+                got = [float(o1['h_mu'][e][0]) for e in els]
+                if mfull != got:
+                    res.disagree('wrapVecFull vs computeHomogenizationFunction chemical potentials', desc, got, mfull)
+        guard(res, 'diffusion-stub:analysis', {kk: (vv if kk not in ('profile', 'bcs') else str(vv)) for kk, vv in c.items()}, _body)
 
 
 # =========================================================================== part C: step rules and site competition
@@ -699,6 +758,7 @@ def eval_model(m, phs, case):
     dtMax = m.finalTime - m.pData.time[n]
     VmB = [pp.volume.Vm for pp in m.precipitateParameters]
     nucP = [pp.nucleation for pp in m.precipitateParameters]
+    at('computeDTfrom…/getDt')
     out = dict(
         dtPSD=float(cs.computeDTfromPSD(n, m.pData.temperature, m.PBM, m.growth, m.dissolutionIndex, m.phases, dtMax)),
         dtNuc=float(cs.computeDTfromNucleationRate(n, m.pData.nucRate, m.phases, dtPrev, dtMax)),
@@ -706,6 +766,7 @@ def eval_model(m, phs, case):
         dtRcrit=float(cs.computeDTfromRcrit(n, m.pData.Rcrit, m.pData.drivingForce, m.phases, dtPrev, dtMax)),
         dtVol=float(cs.computeDTfromVolume(n, m.pData.nucRate, m.pData.Rnuc, m.PBM, m.growth, m.matrixParameters.volume.Vm, VmB, nucP, m.phases, dtMax)),
         dt=float(m.getDt(None)))
+    at('_calcNucleationSites')
     x = [np.array(p['x'], dtype=float) for p in phs]
     out['sites'] = {p['name']: float(m._calcNucleationSites(float(m.pData.time[n]), x, j)) for j, p in enumerate(phs)}
     # magnitude of the terms that are added / subtracted for each phase (rounding scale of the competition sums)
@@ -788,80 +849,87 @@ def part_steps(ctx, res, N, use_model, max_perms=6):
         perms = list(itertools.permutations(range(P)))
         if len(perms) > max_perms:
             rr = random.Random(s + 1); perms = [perms[0]] + rr.sample(perms[1:], max_perms - 1)
-        with warnings.catch_warnings():
-            warnings.simplefilter('ignore')
-            outs = []
-            for order in perms:
-                m, phs = build_model(case, order)
-                outs.append((order, eval_model(m, phs, case)))
-                if order == perms[0]:
-                    lines.append(enc_step(case, m, phs))
-        cases.append((case, outs))
-    model = vlib.run_driver(PROP, lines) if use_model else None
-    for k, (case, outs) in enumerate(cases):
-        c = case['common']; P = len(case['phases'])
-        base = outs[0][1]
-        dtMax = c['finalTime'] - c['times'][c['n']]
-        binding = [q for q, _ in RULES[:5] if base[q] != dtMax]
-        kinds = tuple(p['site'] for p in case['phases'])
-        res.case(('steps', P, c['n'], kinds, case['seed']), P >= 2 and len(binding) > 0)
-        res.count('C:phases=%d' % P); res.count('C:n=0' if c['n'] == 0 else 'C:n>0')
-        for q in binding:
-            res.count('C:binding-' + q)
-        for p in case['phases']:
-            res.count('C:site-' + p['site'])
-            if p['parents']:
-                res.count('C:with-parent-phases')
-        if base['dt'] not in [base[q] for q, _ in RULES[:5]]:
-            res.count('C:dt=dtPropose')
-        desc = dict(part='steps', seed=case['seed'], n=c['n'], phases=[p['name'] + ':' + p['site'] for p in case['phases']],
-                    kinds=[p['kinds'] for p in case['phases']], checks=c['checks'])
-        if k < 1:
-            res.sample(dict(desc, real=base))
-        # ---- direct oracle: every listing of the phases gives the same step and the same sites per phase
-        for order, o in outs[1:]:
-            d2 = dict(desc, listing=[case['phases'][i]['name'] for i in order])
-            for q, fn in RULES:
-                if not close(o[q], base[q], 1e-12):
-                    res.violate('phase-order:' + fn, '%s depends on the order in which the phases are listed' % fn, d2, o[q], base[q])
-            for name, v in o['sites'].items():
-                b = base['sites'][name]
-                if abs(v - b) > 1e-12 * max(abs(v), abs(b), base['scale'][name]):
-                    res.violate('phase-order:_calcNucleationSites', 'nucleation sites of phase %s depend on the listing order' % name, d2, v, b)
-        # independent scalar reference: every rule is the smallest of the per-phase limits (no phase is ignored)
-        refs = ref_rules(case, dtMax)
-        for q, fn in RULES[:4]:
-            if not close(base[q], refs[q], 1e-9):
-                res.violate('phase-order:' + fn, '%s is not the smallest of the per-phase limits' % fn, desc, base[q], refs[q])
-        # the same for the repaired volume rule
-        if c['checks'][4]:
-            m, phs = build_model(case, tuple(range(P)))
-            lim = []
-            for j, p in enumerate(phs):
-                g = np.array(p['growth']); dvi = m.PBM[j].PSD * m.PBM[j].PSDsize ** 2 * 0.5 * (g[1:] + g[:-1]); dvi[dvi < 0] = 0
-                nb = m.precipitateParameters[j].nucleation
-                dv = m.matrixParameters.volume.Vm / m.precipitateParameters[j].volume.Vm * (nb.areaFactor * dvi.sum() + nb.volumeFactor * p['nucCur'] * p['Rnuc'] ** 3)
-                lim.append(c['maxVolumeChange'] / (2 * abs(dv)) if dv != 0 else dtMax)
-            if not close(base['dtVol'], min(lim), 1e-9):
-                res.violate('phase-order:computeDTfromVolume', 'computeDTfromVolume is not the smallest per-phase limit (a phase is ignored)', desc, base['dtVol'], min(lim))
-        # ---- model correspondence
-        if model is None:
+        def _run():
+            with warnings.catch_warnings():
+                warnings.simplefilter('ignore')
+                outs, line = [], None
+                for order in perms:
+                    at('build_model'); m, phs = build_model(case, order)
+                    outs.append((order, eval_model(m, phs, case)))
+                    if order == perms[0]:
+                        at('encode'); line = enc_step(case, m, phs)
+            return outs, line
+        ok, val = guard(res, 'steps', dict(part='steps', seed=s), _run)
+        if not ok:
             continue
-        t = Toks(model[k])
-        if not t.ok:
-            res.disagree('kwn.step model error', desc, 'ok', t.err); continue
-        mv = t.flts(); msites = t.flts()
-        names = ['dtPSD', 'dtNuc', 'dtTemp', 'dtRcrit', 'dtVol', 'dtVolOld', 'dt', 'dtOld']
-        md = dict(zip(names, mv))
-        for q, fn in RULES:
-            if not close(base[q], md[q], 1e-9):
-                res.disagree(fn, desc, base[q], md[q])
-        if md['dtVolOld'] != md['dtVol']:
-            res.count('C:old-volume-rule-differs')
-        for j, p in enumerate(case['phases']):
-            a, b = base['sites'][p['name']], msites[j]
-            if abs(a - b) > 1e-9 * max(abs(a), abs(b), base['scale'][p['name']]):
-                res.disagree('_calcNucleationSites ' + p['name'], desc, a, b)
+        cases.append((case, val[0])); lines.append(val[1])
+    model = run_model(res, lines, use_model)
+    for k, (case, outs) in enumerate(cases):
+        def _body():
+            c = case['common']; P = len(case['phases'])
+            base = outs[0][1]
+            dtMax = c['finalTime'] - c['times'][c['n']]
+            binding = [q for q, _ in RULES[:5] if base[q] != dtMax]
+            kinds = tuple(p['site'] for p in case['phases'])
+            res.case(('steps', P, c['n'], kinds, case['seed']), P >= 2 and len(binding) > 0)
+            res.count('C:phases=%d' % P); res.count('C:n=0' if c['n'] == 0 else 'C:n>0')
+            for q in binding:
+                res.count('C:binding-' + q)
+            for p in case['phases']:
+                res.count('C:site-' + p['site'])
+                if p['parents']:
+                    res.count('C:with-parent-phases')
+            if base['dt'] not in [base[q] for q, _ in RULES[:5]]:
+                res.count('C:dt=dtPropose')
+            desc = dict(part='steps', seed=case['seed'], n=c['n'], phases=[p['name'] + ':' + p['site'] for p in case['phases']],
+                        kinds=[p['kinds'] for p in case['phases']], checks=c['checks'])
+            if k < 1:
+                res.sample(dict(desc, real=base))
+            # ---- direct oracle: every listing of the phases gives the same step and the same sites per phase
+            for order, o in outs[1:]:
+                d2 = dict(desc, listing=[case['phases'][i]['name'] for i in order])
+                for q, fn in RULES:
+                    if not close(o[q], base[q], 1e-12):
+                        res.violate('phase-order:' + fn, '%s depends on the order in which the phases are listed' % fn, d2, o[q], base[q])
+                for name, v in o['sites'].items():
+                    b = base['sites'][name]
+                    if abs(v - b) > 1e-12 * max(abs(v), abs(b), base['scale'][name]):
+                        res.violate('phase-order:_calcNucleationSites', 'nucleation sites of phase %s depend on the listing order' % name, d2, v, b)
+            # independent scalar reference: every rule is the smallest of the per-phase limits (no phase is ignored)
+            refs = ref_rules(case, dtMax)
+            for q, fn in RULES[:4]:
+                if not close(base[q], refs[q], 1e-9):
+                    res.violate('phase-order:' + fn, '%s is not the smallest of the per-phase limits' % fn, desc, base[q], refs[q])
+            # the same for the repaired volume rule
+            if c['checks'][4]:
+                m, phs = build_model(case, tuple(range(P)))
+                lim = []
+                for j, p in enumerate(phs):
+                    g = np.array(p['growth']); dvi = m.PBM[j].PSD * m.PBM[j].PSDsize ** 2 * 0.5 * (g[1:] + g[:-1]); dvi[dvi < 0] = 0
+                    nb = m.precipitateParameters[j].nucleation
+                    dv = m.matrixParameters.volume.Vm / m.precipitateParameters[j].volume.Vm * (nb.areaFactor * dvi.sum() + nb.volumeFactor * p['nucCur'] * p['Rnuc'] ** 3)
+                    lim.append(c['maxVolumeChange'] / (2 * abs(dv)) if dv != 0 else dtMax)
+                if not close(base['dtVol'], min(lim), 1e-9):
+                    res.violate('phase-order:computeDTfromVolume', 'computeDTfromVolume is not the smallest per-phase limit (a phase is ignored)', desc, base['dtVol'], min(lim))
+            # ---- model correspondence
+            if model is None:
+                return
+            t = Toks(model[k])
+            if not t.ok:
+                res.disagree('kwn.step model error', desc, 'ok', t.err); return
+            mv = t.flts(); msites = t.flts()
+            names = ['dtPSD', 'dtNuc', 'dtTemp', 'dtRcrit', 'dtVol', 'dtVolOld', 'dt', 'dtOld']
+            md = dict(zip(names, mv))
+            for q, fn in RULES:
+                if not close(base[q], md[q], 1e-9):
+                    res.disagree(fn, desc, base[q], md[q])
+            if md['dtVolOld'] != md['dtVol']:
+                res.count('C:old-volume-rule-differs')
+            for j, p in enumerate(case['phases']):
+                a, b = base['sites'][p['name']], msites[j]
+                if abs(a - b) > 1e-9 * max(abs(a), abs(b), base['scale'][p['name']]):
+                    res.disagree('_calcNucleationSites ' + p['name'], desc, a, b)
+        guard(res, 'steps:analysis', dict(part='steps', seed=case['seed']), _body)
 
 
 # =========================================================================== part C2: the per-phase update of a step
@@ -922,7 +990,8 @@ def run_update(case, order):
     # like the real _growthRate, a phase whose growth calculation failed (negative driving force, no equilibrium) keeps self.growth[p]
     m._growthRate = lambda Y: ([(m.growth[j] if p['dG'] < 0 else gfun(p, m.PBM[j].PSDbounds)) for j, p in enumerate(phs)], Y)
     x = [np.array(p['xnew'], dtype=float) for p in phs]
-    m._updateParticleSizeDistribution(float(m.pData.time[n]), x)
+    at('_updateParticleSizeDistribution'); m._updateParticleSizeDistribution(float(m.pData.time[n]), x)
+    at('computeDTfrom…/getDt after update')
     st = {}
     for j, p in enumerate(phs):
         st[p['name']] = dict(PSD=np.array(m.PBM[j].PSD, dtype=float), bounds=np.array(m.PBM[j].PSDbounds, dtype=float), bins=int(m.PBM[j].bins),
@@ -957,46 +1026,48 @@ def part_update(ctx, res, N, use_model=False, max_perms=4):
     vlib.use_repo()
     for _ in range(N):
         s = ctx.rng.getrandbits(48)
-        case = gen_update_case(random.Random(s)); case['seed'] = s
-        P = len(case['phases'])
-        perms = list(itertools.permutations(range(P)))
-        # always include the reversed listing and a rotation (every phase is first / last in some listing)
-        want = [perms[0], tuple(reversed(range(P))), tuple(list(range(1, P)) + [0])]
-        rest = [q for q in perms if q not in want]
-        random.Random(s + 1).shuffle(rest)
-        perms = list(dict.fromkeys(want + rest))[:max_perms]
-        with warnings.catch_warnings():
-            warnings.simplefilter('ignore')
-            outs = [(o, run_update(case, o)) for o in perms]
-            singles = {case['phases'][i]['name']: run_update(case, (i,)) for i in range(P)}
-        base_st, base_rules, base_pbm = outs[0][1]
-        changed = [nm for nm, st_ in base_st.items() if st_['bins'] != [p for p in case['phases'] if p['name'] == nm][0]['bins']]
-        ndiss = sum(1 for st_ in base_st.values() if st_['dissolutionIndex'] > 0)
-        res.case(('update', P, case['seed']), ndiss >= 1)
-        res.count('C2:phases=%d' % P); res.count('C2:phases-with-dissolution-index>0', ndiss); res.count('C2:re-meshed-phases', len(changed))
-        if base_rules['dtPSD'] == base_rules['dt']:
-            res.count('C2:PSD-rule-binding')
-        for p in case['phases']:
-            res.count('C2:psd-' + p['kinds'][0])
-        desc = dict(part='update', seed=s, phases=[p['name'] + ':' + p['kinds'][0] for p in case['phases']], n=case['common']['n'])
-        # ---- direct oracle: by phase NAME the state written by the update and the following getDt do not depend on the listing
-        for o, (st_, rules, pbm) in outs[1:]:
-            d2 = dict(desc, listing=[case['phases'][i]['name'] for i in o])
-            for nm in base_st:
-                df = state_diff(base_st[nm], st_[nm])
+        def _body():
+            case = gen_update_case(random.Random(s)); case['seed'] = s
+            P = len(case['phases'])
+            perms = list(itertools.permutations(range(P)))
+            # always include the reversed listing and a rotation (every phase is first / last in some listing)
+            want = [perms[0], tuple(reversed(range(P))), tuple(list(range(1, P)) + [0])]
+            rest = [q for q in perms if q not in want]
+            random.Random(s + 1).shuffle(rest)
+            perms = list(dict.fromkeys(want + rest))[:max_perms]
+            with warnings.catch_warnings():
+                warnings.simplefilter('ignore')
+                outs = [(o, run_update(case, o)) for o in perms]
+                singles = {case['phases'][i]['name']: run_update(case, (i,)) for i in range(P)}
+            base_st, base_rules, base_pbm = outs[0][1]
+            changed = [nm for nm, st_ in base_st.items() if st_['bins'] != [p for p in case['phases'] if p['name'] == nm][0]['bins']]
+            ndiss = sum(1 for st_ in base_st.values() if st_['dissolutionIndex'] > 0)
+            res.case(('update', P, case['seed']), ndiss >= 1)
+            res.count('C2:phases=%d' % P); res.count('C2:phases-with-dissolution-index>0', ndiss); res.count('C2:re-meshed-phases', len(changed))
+            if base_rules['dtPSD'] == base_rules['dt']:
+                res.count('C2:PSD-rule-binding')
+            for p in case['phases']:
+                res.count('C2:psd-' + p['kinds'][0])
+            desc = dict(part='update', seed=s, phases=[p['name'] + ':' + p['kinds'][0] for p in case['phases']], n=case['common']['n'])
+            # ---- direct oracle: by phase NAME the state written by the update and the following getDt do not depend on the listing
+            for o, (st_, rules, pbm) in outs[1:]:
+                d2 = dict(desc, listing=[case['phases'][i]['name'] for i in o])
+                for nm in base_st:
+                    df = state_diff(base_st[nm], st_[nm])
+                    if df:
+                        res.violate('phase-order:update:' + df[0], '_updateParticleSizeDistribution: %s of phase %s depends on the order in which the phases are listed' % (df[0], nm), d2, df[2], df[1])
+                    if not close(pbm[nm], base_pbm[nm], 1e-12):
+                        res.violate('phase-order:update:getDTEuler', 'PSD step limit of phase %s after the update depends on the listing order' % nm, d2, pbm[nm], base_pbm[nm])
+                for q in ('dtPSD', 'dtVol', 'dt'):
+                    if not close(rules[q], base_rules[q], 1e-12):
+                        res.violate('phase-order:getDt-after-update', '%s after the real per-phase update depends on the order in which the phases are listed' % q, d2, rules[q], base_rules[q])
+            # ---- the update is `map` of a per-phase function: each phase ends in the state it reaches when it is the only phase
+            for nm, (st1, _, pbm1) in singles.items():
+                df = state_diff(st1[nm], base_st[nm])
                 if df:
-                    res.violate('phase-order:update:' + df[0], '_updateParticleSizeDistribution: %s of phase %s depends on the order in which the phases are listed' % (df[0], nm), d2, df[2], df[1])
-                if not close(pbm[nm], base_pbm[nm], 1e-12):
-                    res.violate('phase-order:update:getDTEuler', 'PSD step limit of phase %s after the update depends on the listing order' % nm, d2, pbm[nm], base_pbm[nm])
-            for q in ('dtPSD', 'dtVol', 'dt'):
-                if not close(rules[q], base_rules[q], 1e-12):
-                    res.violate('phase-order:getDt-after-update', '%s after the real per-phase update depends on the order in which the phases are listed' % q, d2, rules[q], base_rules[q])
-        # ---- the update is `map` of a per-phase function: each phase ends in the state it reaches when it is the only phase
-        for nm, (st1, _, pbm1) in singles.items():
-            df = state_diff(st1[nm], base_st[nm])
-            if df:
-                res.violate('phase-order:update-vs-single-phase:' + df[0],
-                            '_updateParticleSizeDistribution: %s of phase %s in the multi-phase model differs from the same phase updated alone' % (df[0], nm), desc, df[2], df[1])
+                    res.violate('phase-order:update-vs-single-phase:' + df[0],
+                                '_updateParticleSizeDistribution: %s of phase %s in the multi-phase model differs from the same phase updated alone' % (df[0], nm), desc, df[2], df[1])
+        guard(res, 'update', dict(part='update', seed=s), _body)
 
 
 # =========================================================================== part D: monitored, real pycalphad
@@ -1015,77 +1086,82 @@ def therm_pair():
 
 
 def part_real_thermo(ctx, res, N, rtol=1e-6):
-    A, B = therm_pair()
+    ok, pair = guard(res, 'real-thermo:build', dict(part='real-thermo'), therm_pair)
+    if not ok:
+        return
+    A, B = pair
     P = [1, 0]; PF = [0, 2, 1]
     for _ in range(N):
         s = ctx.rng.getrandbits(48); r = random.Random(s)
-        if r.random() < 0.7:      # mostly inside the gamma + gamma' region
-            xa = [r.uniform(0.095, 0.13), r.uniform(0.05, 0.11)]; T = r.uniform(950, 1090)
-        else:
-            xa = [r.uniform(0.05, 0.13), r.uniform(0.04, 0.13)]; T = r.uniform(950, 1250)   # AL, CR
-        desc = dict(part='real-thermo', seed=s, x_AL_CR=xa, T=T)
-        xb = [xa[1], xa[0]]
-        got = []
-        with warnings.catch_warnings():
-            warnings.simplefilter('ignore')
-            for meth in ('tangent', 'approximate', 'sampling', 'curvature'):
-                A.setDrivingForceMethod(meth); B.setDrivingForceMethod(meth); A.clearCache(); B.clearCache()
-                dga, xpa = A.getDrivingForce(xa, T, removeCache=True); dgb, xpb = B.getDrivingForce(xb, T, removeCache=True)
-                try:
-                    va = [float(dga)] + [float(v_) for v_ in np.atleast_1d(xpa)]
-                    vb = [float(dgb)] + [float(v_) for v_ in np.atleast_1d(xpb)[P]]
-                    got.append(('driving-force-' + meth, va, vb, rtol))
-                except (TypeError, ValueError):
-                    got.append(('driving-force-' + meth, str((dga, xpa)), str((dgb, np.atleast_1d(xpb)[P] if np.ndim(xpb) else xpb)), 0))
-            A.setDrivingForceMethod('tangent'); B.setDrivingForceMethod('tangent'); A.clearCache(); B.clearCache()
-            Da = A.getInterdiffusivity(xa, T); Db = B.getInterdiffusivity(xb, T)
-            got.append(('interdiffusivity', Da, Db[P][:, P], rtol))
-            ta = A.getTracerDiffusivity(xa, T); tb = B.getTracerDiffusivity(xb, T)
-            got.append(('tracer', ta, tb[PF], rtol))
-            from kawin.diffusion.DiffusionParameters import computeMobility
-            ma = computeMobility(A, xa, T); mb = computeMobility(B, xb, T)
-            if list(ma.phases[0]) == list(mb.phases[0]):
-                got.append(('mobility', ma.mobility[0], np.array(mb.mobility[0])[:, PF], rtol))
-                got.append(('mob_mu', ma.chemical_potentials[0], np.array(mb.chemical_potentials[0])[PF], rtol))
+        def _body():
+            if r.random() < 0.7:      # mostly inside the gamma + gamma' region
+                xa = [r.uniform(0.095, 0.13), r.uniform(0.05, 0.11)]; T = r.uniform(950, 1090)
             else:
-                got.append(('mobility', str(ma.phases[0]), str(mb.phases[0]), 0))
-            ca = A.curvatureFactor(xa, T, removeCache=True); cb = B.curvatureFactor(xb, T, removeCache=True)
-            if ca is None or cb is None:
-                got.append(('curvature', ca is None, cb is None, 0)); res.count('D:curvature-single-phase')
-            else:
-                got.append(('dc', ca.dc, cb.dc[P], rtol)); got.append(('mc', ca.mc, cb.mc, rtol)); got.append(('beta', ca.beta, cb.beta, rtol))
-                got.append(('gba', ca.gba, cb.gba[P][:, P], rtol)); got.append(('ceq_a', ca.c_eq_alpha, cb.c_eq_alpha[P], rtol)); got.append(('ceq_b', ca.c_eq_beta, cb.c_eq_beta[P], rtol))
-                R = np.array([1e-9, 3e-9, 2e-8]); gE = np.array([800.0, 300.0, 40.0])
-                ga = A.getGrowthAndInterfacialComposition(xa, T, 5000.0, R, gE, removeCache=True); gb = B.getGrowthAndInterfacialComposition(xb, T, 5000.0, R, gE, removeCache=True)
-                if ga is not None and gb is not None:
-                    got.append(('growth', ga.growth_rate, gb.growth_rate, rtol)); got.append(('growth-c_alpha', ga.c_alpha, gb.c_alpha[:, P], rtol))
-                    got.append(('growth-c_beta', ga.c_beta, gb.c_beta[:, P], rtol))
-                res.count('D:curvature-two-phase')
-            gex = r.choice([0.0, 500.0, 2000.0])
-            ia = A.getInterfacialComposition(xa, T, gex); ib = B.getInterfacialComposition(xb, T, gex)
-            got.append(('ic_a', ia[0], np.asarray(ib[0])[PF], rtol)); got.append(('ic_b', ia[1], np.asarray(ib[1])[PF], rtol))
-            res.count('D:interfacial-two-phase' if np.all(np.asarray(ia[0]) >= 0) else 'D:interfacial-unstable')
-        nontriv = False
-        for key, a, b, tol in got:
-            if tol == 0:
-                if a != b:
-                    res.violate('elem-order:' + key, 'real backend: %s differs in kind between the two listings' % key, desc, a, b)
-                continue
-            nontriv = True
-            if rel(a, b) > tol:
-                res.violate('elem-order:' + key, 'real backend (Ni-Cr-Al): %s with elements NI,AL,CR is not the permuted result of NI,CR,AL' % key, desc,
-                            np.asarray(a).tolist(), np.asarray(b).tolist())
-        res.case(('real-thermo', s), nontriv)
-        res.count('D:real-thermo-points')
+                xa = [r.uniform(0.05, 0.13), r.uniform(0.04, 0.13)]; T = r.uniform(950, 1250)   # AL, CR
+            desc = dict(part='real-thermo', seed=s, x_AL_CR=xa, T=T)
+            xb = [xa[1], xa[0]]
+            got = []
+            with warnings.catch_warnings():
+                warnings.simplefilter('ignore')
+                for meth in ('tangent', 'approximate', 'sampling', 'curvature'):
+                    A.setDrivingForceMethod(meth); B.setDrivingForceMethod(meth); A.clearCache(); B.clearCache()
+                    dga, xpa = A.getDrivingForce(xa, T, removeCache=True); dgb, xpb = B.getDrivingForce(xb, T, removeCache=True)
+                    try:
+                        va = [float(dga)] + [float(v_) for v_ in np.atleast_1d(xpa)]
+                        vb = [float(dgb)] + [float(v_) for v_ in np.atleast_1d(xpb)[P]]
+                        got.append(('driving-force-' + meth, va, vb, rtol))
+                    except (TypeError, ValueError):
+                        got.append(('driving-force-' + meth, str((dga, xpa)), str((dgb, np.atleast_1d(xpb)[P] if np.ndim(xpb) else xpb)), 0))
+                A.setDrivingForceMethod('tangent'); B.setDrivingForceMethod('tangent'); A.clearCache(); B.clearCache()
+                Da = A.getInterdiffusivity(xa, T); Db = B.getInterdiffusivity(xb, T)
+                got.append(('interdiffusivity', Da, Db[P][:, P], rtol))
+                ta = A.getTracerDiffusivity(xa, T); tb = B.getTracerDiffusivity(xb, T)
+                got.append(('tracer', ta, tb[PF], rtol))
+                from kawin.diffusion.DiffusionParameters import computeMobility
+                ma = computeMobility(A, xa, T); mb = computeMobility(B, xb, T)
+                if list(ma.phases[0]) == list(mb.phases[0]):
+                    got.append(('mobility', ma.mobility[0], np.array(mb.mobility[0])[:, PF], rtol))
+                    got.append(('mob_mu', ma.chemical_potentials[0], np.array(mb.chemical_potentials[0])[PF], rtol))
+                else:
+                    got.append(('mobility', str(ma.phases[0]), str(mb.phases[0]), 0))
+                ca = A.curvatureFactor(xa, T, removeCache=True); cb = B.curvatureFactor(xb, T, removeCache=True)
+                if ca is None or cb is None:
+                    got.append(('curvature', ca is None, cb is None, 0)); res.count('D:curvature-single-phase')
+                else:
+                    got.append(('dc', ca.dc, cb.dc[P], rtol)); got.append(('mc', ca.mc, cb.mc, rtol)); got.append(('beta', ca.beta, cb.beta, rtol))
+                    got.append(('gba', ca.gba, cb.gba[P][:, P], rtol)); got.append(('ceq_a', ca.c_eq_alpha, cb.c_eq_alpha[P], rtol)); got.append(('ceq_b', ca.c_eq_beta, cb.c_eq_beta[P], rtol))
+                    R = np.array([1e-9, 3e-9, 2e-8]); gE = np.array([800.0, 300.0, 40.0])
+                    ga = A.getGrowthAndInterfacialComposition(xa, T, 5000.0, R, gE, removeCache=True); gb = B.getGrowthAndInterfacialComposition(xb, T, 5000.0, R, gE, removeCache=True)
+                    if ga is not None and gb is not None:
+                        got.append(('growth', ga.growth_rate, gb.growth_rate, rtol)); got.append(('growth-c_alpha', ga.c_alpha, gb.c_alpha[:, P], rtol))
+                        got.append(('growth-c_beta', ga.c_beta, gb.c_beta[:, P], rtol))
+                    res.count('D:curvature-two-phase')
+                gex = r.choice([0.0, 500.0, 2000.0])
+                ia = A.getInterfacialComposition(xa, T, gex); ib = B.getInterfacialComposition(xb, T, gex)
+                got.append(('ic_a', ia[0], np.asarray(ib[0])[PF], rtol)); got.append(('ic_b', ia[1], np.asarray(ib[1])[PF], rtol))
+                res.count('D:interfacial-two-phase' if np.all(np.asarray(ia[0]) >= 0) else 'D:interfacial-unstable')
+            nontriv = False
+            for key, a, b, tol in got:
+                if tol == 0:
+                    if a != b:
+                        res.violate('elem-order:' + key, 'real backend: %s differs in kind between the two listings' % key, desc, a, b)
+                    continue
+                nontriv = True
+                if rel(a, b) > tol:
+                    res.violate('elem-order:' + key, 'real backend (Ni-Cr-Al): %s with elements NI,AL,CR is not the permuted result of NI,CR,AL' % key, desc,
+                                np.asarray(a).tolist(), np.asarray(b).tolist())
+            res.case(('real-thermo', s), nontriv)
+            res.count('D:real-thermo-points')
+        guard(res, 'real-thermo', dict(part='real-thermo', seed=s), _body)
 
 
-def part_diffusion(ctx, res, steps):
+def part_diffusion(ctx, res, steps, seed=None):
     vlib.use_repo()
     from kawin.tests.datasets import NICRAL_TDB
     from kawin.thermo import GeneralThermodynamics
     from kawin.diffusion import SinglePhaseModel
     from kawin.diffusion.DiffusionParameters import CompositionProfile
-    r = random.Random(ctx.rng.getrandbits(48))
+    r = random.Random(ctx.rng.getrandbits(48) if seed is None else seed)
     cr = (r.uniform(0.05, 0.1), r.uniform(0.25, 0.36)); al = (r.uniform(0.04, 0.06), r.uniform(0.06, 0.09))
     outs = []
     with warnings.catch_warnings():
@@ -1113,7 +1189,7 @@ def part_diffusion(ctx, res, steps):
                     float(rel(x1, x2[::-1])), 1e-8)
 
 
-def part_homogenization_real(ctx, res, system, N=6, steps=0):
+def part_homogenization_real(ctx, res, system, N=6, steps=0, seed=None):
     """paired REAL homogenization-path evaluations with a listing whose sorting permutation is a 3-cycle
     (FE,NI,CR / NI,AL,CR) against an involutive one (FE,CR,NI / NI,CR,AL): by element name everything agrees"""
     vlib.use_repo()
@@ -1122,7 +1198,7 @@ def part_homogenization_real(ctx, res, system, N=6, steps=0):
     from kawin.diffusion import HomogenizationModel
     from kawin.diffusion.DiffusionParameters import CompositionProfile, computeMobility
     from kawin.diffusion.HomogenizationParameters import HomogenizationParameters, computeHomogenizationFunction
-    r = random.Random(ctx.rng.getrandbits(48))
+    r = random.Random(ctx.rng.getrandbits(48) if seed is None else seed)
     if system == 'FECRNI':
         db, ref, sols, T = datasets.FECRNI_DB, 'FE', (['NI', 'CR'], ['CR', 'NI']), 1100 + 273.15
         ends = {'CR': (r.uniform(0.22, 0.28), r.uniform(0.38, 0.44)), 'NI': (r.uniform(0.05, 0.08), r.uniform(0.24, 0.3))}
@@ -1222,7 +1298,7 @@ def noise_limited_step(m, i):
     return False, None
 
 
-def part_kwn_multiphase(ctx, res, steps, three=False, cached=False, loaded=False):
+def part_kwn_multiphase(ctx, res, steps, three=False, cached=False, loaded=False, seed=None):
     """paired runs with the phases listed in every order.  cached=False: thermodynamics without warm-start caches
     (setThermodynamics(removeCache=True)): the backend is a deterministic function of (x, T, phase), the runs must
     agree to rounding.  cached=True: kawin's default; the equilibrium solver is warm-started from the previous call,
@@ -1234,7 +1310,7 @@ def part_kwn_multiphase(ctx, res, steps, three=False, cached=False, loaded=False
     from kawin.precipitation import PrecipitateModel, VolumeParameter
     allph = ['MGSI_B_P', 'MG5SI6_B_DP', 'B_PRIME_L']
     gamma = {'MGSI_B_P': 0.18, 'MG5SI6_B_DP': 0.084, 'B_PRIME_L': 0.18}
-    r = random.Random(ctx.rng.getrandbits(48))
+    r = random.Random(ctx.rng.getrandbits(48) if seed is None else seed)
     phs = allph if three else r.choice([allph[:2], allph[:2], [allph[0], allph[2]], allph[1:]])
     T = r.uniform(230, 270) + 273.15
     x0 = [r.uniform(0.006, 0.009), r.uniform(0.005, 0.007)]
@@ -1325,12 +1401,12 @@ def part_kwn_multiphase(ctx, res, steps, three=False, cached=False, loaded=False
         compare_runs(res, d2, base, m, perm, 'phase-order:run-cached', rt_time=1e-6, rt_hist=2e-3)
 
 
-def part_kwn_ternary(ctx, res, steps):
+def part_kwn_ternary(ctx, res, steps, seed=None):
     import kwnruns
     vlib.use_repo()
     from kawin.precipitation import PrecipitateModel, VolumeParameter
     A, B = therm_pair()
-    r = random.Random(ctx.rng.getrandbits(48))
+    r = random.Random(ctx.rng.getrandbits(48) if seed is None else seed)
     x_al, x_cr = r.uniform(0.09, 0.105), r.uniform(0.075, 0.09)
     T = r.uniform(1053, 1093)
     runs = []
@@ -1359,6 +1435,18 @@ def part_kwn_ternary(ctx, res, steps):
             res.violate('elem-order:run:history-' + nm, 'paired ternary runs: %s is not the re-listed one' % nm, desc)
 
 
+def _dparts():
+    return {'kwn-multiphase': part_kwn_multiphase, 'kwn-ternary': part_kwn_ternary, 'diffusion': part_diffusion,
+            'homogenization-real': part_homogenization_real}
+
+
+def run_part(ctx, res, name, seed=None, **kw):
+    """one paired real evaluation / run, generated from its own seed, inside its own guard"""
+    s = ctx.rng.getrandbits(48) if seed is None else seed
+    case = dict(part=name, seed=s, args=dict(kw))
+    return guard(res, name, case, lambda: _dparts()[name](ctx, res, seed=s, **kw))
+
+
 # =========================================================================== entry points
 def corr(ctx, oracle_only=False, scale=1):
     res = Result()
@@ -1378,26 +1466,27 @@ def corr(ctx, oracle_only=False, scale=1):
     t2 = time.time()
     part_real_thermo(ctx, res, ctx.n(6, 150))
     t3 = time.time()
-    part_kwn_multiphase(ctx, res, ctx.n(40, 200))
-    part_kwn_multiphase(ctx, res, ctx.n(25, 120), loaded=True)
-    part_kwn_multiphase(ctx, res, ctx.n(60, 400), cached=True)
+    run_part(ctx, res, 'kwn-multiphase', steps=ctx.n(40, 200))
+    run_part(ctx, res, 'kwn-multiphase', steps=ctx.n(25, 120), loaded=True)
+    run_part(ctx, res, 'kwn-multiphase', steps=ctx.n(60, 400), cached=True)
     if ctx.thorough:
         for _ in range(3):
-            part_kwn_multiphase(ctx, res, 150)
-            part_kwn_multiphase(ctx, res, 400, cached=True)
-        part_kwn_multiphase(ctx, res, 80, three=True)
-        part_kwn_multiphase(ctx, res, 60, three=True, loaded=True)
-        part_kwn_multiphase(ctx, res, 100, loaded=True)
-        part_kwn_multiphase(ctx, res, 250, three=True, cached=True)
+            run_part(ctx, res, 'kwn-multiphase', steps=150)
+            run_part(ctx, res, 'kwn-multiphase', steps=400, cached=True)
+        run_part(ctx, res, 'kwn-multiphase', steps=80, three=True)
+        run_part(ctx, res, 'kwn-multiphase', steps=60, three=True, loaded=True)
+        run_part(ctx, res, 'kwn-multiphase', steps=100, loaded=True)
+        run_part(ctx, res, 'kwn-multiphase', steps=250, three=True, cached=True)
     t4 = time.time()
-    part_kwn_ternary(ctx, res, ctx.n(25, 200))
-    part_diffusion(ctx, res, ctx.n(4, 40))
-    part_homogenization_real(ctx, res, 'FECRNI', steps=ctx.n(0, 3))
-    part_homogenization_real(ctx, res, 'NICRAL', steps=ctx.n(0, 3))
+    run_part(ctx, res, 'kwn-ternary', steps=ctx.n(25, 200))
+    run_part(ctx, res, 'diffusion', steps=ctx.n(4, 40))
+    run_part(ctx, res, 'homogenization-real', system='FECRNI', steps=ctx.n(0, 3))
+    run_part(ctx, res, 'homogenization-real', system='NICRAL', steps=ctx.n(0, 3))
     t5 = time.time()
     res.monitored = list(MONITORED)
     res.extra['part_wall_s'] = dict(argsort_wrappers=round(t1 - t0, 1), steps=round(t2 - t1, 1), real_thermo=round(t3 - t2, 1),
                                     kwn_multiphase=round(t4 - t3, 1), kwn_ternary_diffusion=round(t5 - t4, 1))
+    vlib.finish_guard(res)
     return res
 
 
@@ -1408,26 +1497,38 @@ def search(ctx, broken):
 def replay(ctx, entry):
     """re-evaluate the oracle on the recorded case (cases are regenerated from their seed)"""
     c = entry['violation']['case']
+    if 'part' not in c and isinstance(c.get('case'), dict):
+        c = c['case']
     part = c.get('part')
     res = Result()
+
     class OneSeed:
         def __init__(s, v): s.v = v
         def getrandbits(s, k): return s.v
     ctx.driver_ok = False
-    if part in ('argsort', 'wrappers', 'steps', 'diffusion-stub', 'update') and 'seed' in c:
-        saved = ctx.rng; ctx.rng = OneSeed(int(c['seed']))
-        try:
-            {'argsort': part_argsort, 'wrappers': part_wrappers, 'steps': part_steps, 'diffusion-stub': part_diffusion_stub, 'update': part_update}[part](ctx, res, 1, False)
-        finally:
-            ctx.rng = saved
-    elif part == 'real-thermo':
-        saved = ctx.rng; ctx.rng = OneSeed(int(c['seed']))
-        try:
-            part_real_thermo(ctx, res, 1)
-        finally:
-            ctx.rng = saved
-    else:
-        res = corr(ctx, oracle_only=True)
+    loops = {'argsort': part_argsort, 'wrappers': part_wrappers, 'steps': part_steps, 'diffusion-stub': part_diffusion_stub,
+             'update': part_update, 'real-thermo': part_real_thermo}
+    try:
+        if part in loops and 'seed' in c:
+            saved = ctx.rng; ctx.rng = OneSeed(int(c['seed']))
+            try:
+                if part == 'real-thermo':
+                    part_real_thermo(ctx, res, 1)
+                else:
+                    loops[part](ctx, res, 1, False)
+            finally:
+                ctx.rng = saved
+        elif part in _dparts() and 'seed' in c:
+            run_part(ctx, res, part, seed=int(c['seed']), **(c.get('args') or {}))
+        elif part in _dparts():
+            # recorded by a comparison inside the part: rerun that part on a fresh sample
+            run_part(ctx, res, part, **({'system': c['system']} if 'system' in c else {'steps': c.get('steps', 40)}))
+        else:
+            res = corr(ctx, oracle_only=True)
+        vlib.finish_guard(res)
+    except Exception as e:                      # harness problem while replaying: report, do not claim the property holds
+        print('   replay raised', type(e).__name__, e)
+        return False
     for v in res.violations:
         print('  ', v['key'], v['what'], v['observed'], v['required'])
     return not res.violations
